@@ -228,7 +228,7 @@ class ConsumerRun:
 
         a, x, w, k = e["a"], e["x"], e.get("w", []), e.get("k", "")
         if not self.possible(e):
-            self.steps.append({"e": dict(e, a="Unexecutable"), "o": {"acts": [], "exc": "", "lp": -1, "lc": -1, "pending": 0, "overlap": False}, "was": e})
+            self.steps.append({"e": dict(e, a="Unexecutable"), "o": {"acts": [], "exc": "", "lp": -1, "lc": -1, "pending": 0, "overlap": False, "bad": False}, "was": e})
             return False
         self.acts = []
         exc = ""
@@ -286,7 +286,7 @@ class ConsumerRun:
         pending = sum(1 for dc in self.clock.getDelayedCalls() if (self.timer_tags.get(id(dc)) or ("",))[0] in ("retry", "cretry", "tick"))
         self.steps.append({"e": {"a": a, "x": x, "w": w, "k": k}, "o": {"acts": self.acts, "exc": exc, "lp": -1 if lp is None else lp,
                                                                    "lc": -1 if lc is None else lc, "pending": pending,
-                                                                   "overlap": self.overlap}})
+                                                                   "overlap": self.overlap, "bad": False}})
         return True
 
     def result(self):
